@@ -171,6 +171,23 @@ pub fn far_almost_collinear_arcs() -> Vec<Vec<PathControlPoint>> {
     v
 }
 
+/// Paths whose last two control points are neighbouring floats (one unit in the last place apart in x, y or both):
+/// different points, however close.
+pub fn adjacent_float_ends() -> Vec<Vec<PathControlPoint>> {
+    let mut v = Vec::new();
+    let up = |x: f32| f32::from_bits(x.to_bits() + 1);
+    for (bx, by) in [(100.0f32, 50.0f32), (0.3, 0.7), (360.5, -12.25), (1.0, 0.0)] {
+        for (cx, cy) in [(up(bx), by), (bx, up(by)), (up(bx), up(by))] {
+            for ty in [PathType::LINEAR, PathType::BEZIER, PathType::CATMULL] {
+                let p = |x: f32, y: f32, t| PathControlPoint { pos: Pos::new(x, y), path_type: t };
+                v.push(vec![p(0.0, 0.0, Some(ty)), p(bx, by, None), p(cx, cy, None)]);
+                v.push(vec![p(0.0, 0.0, Some(ty)), p(bx / 2.0, by, None), p(bx, by, Some(PathType::LINEAR)), p(cx, cy, None)]);
+            }
+        }
+    }
+    v
+}
+
 pub fn points_json(pts: &[PathControlPoint]) -> Value {
     Value::Array(
         pts.iter()
